@@ -1,6 +1,9 @@
 //! A lock-free prepend-only list.
 
+#[cfg(not(rescrv_blue_verif_shuttle))]
 use std::sync::atomic::{AtomicPtr, Ordering};
+#[cfg(rescrv_blue_verif_shuttle)]
+use shuttle::sync::atomic::{AtomicPtr, Ordering};
 
 /////////////////////////////////////////////// Node ///////////////////////////////////////////////
 
